@@ -211,9 +211,9 @@ def h4(prog, rep):
     for e in up.all_elems():
         if e.cls == "BinaryOperator" and e.op in ("/", ">>") and norm(e) == parent_of(i):
             n += 1
-            ok = any(op == "!=" and L == i and R == ("c", 0) for cond, truth in up.edge_conds(e) for op, L, R, _, _ in cond_atoms(cond, truth))
+            ok = any(L == i and ((op in ("!=", ">") and R == ("c", 0)) or (op == ">=" and R == ("c", 1))) for cond, truth in up.edge_conds(e) for op, L, R, _, _ in cond_atoms(cond, truth))
             rep.check(ok, "H4-index", "heapifyup: parent index used only when i != 0", e.where, "", function="heapifyup", construct="parent-guard")
-    if n < 2:
+    if n < 1:
         rep.defer_broken("H4: parent index expression (i - 1) / 2 not found in heapifyup")
     # sift-up: stop when compar(elem i, parent) >= 0, else swap(i, parent) and i = parent
     brk = False
@@ -343,6 +343,17 @@ def h6_build(prog, rep):
         st = A.state_before(init)
         start = A.lin(init.kid(1), st) if st is not None else None
         oks = start is not None and A.holds(st, ">=", start.scale(2) + Lin.const(3), Lin.var(N))
+    if not (okc and okl and oks) and norm(c.arg(2)) == N:
+        # the same pass written without the wrap-around (`for (i = N; i > 0; i--) heapify(.., i - 1, ..)`, or any other counter):
+        # the positions sifted are every index N - 1 .. 0, downwards, one at a time (relational: c01.covers_range)
+        from .c01 import covers_range
+        a1 = c.arg(1)
+        okr, _why = covers_range(f, c, a1, N, c)
+        vs = [x for x in subterms(norm(a1)) if isinstance(x, tuple) and len(x) > 2 and x[0] == "v"]
+        down = len(vs) == 1 and any(ir.step(e) is not None and ir.step(e)[0] == "-=" and ir.step(e)[1] == vs[0] for e in f.all_elems()
+                                    if e.block.id in f.reach_from(c.block.id) and c.block.id in f.reach_from(e.block.id))
+        if okr and down:
+            okc = okl = oks = True
     rep.check(okc and okl and oks, "H4-sift", "ptrheap_create: the sift-down pass starts at or beyond the last node that has a child and comes down one node at a time", f.loc,
               "heapify(elems, i, N): %s; loop `i < N; i--`: %s; start %s with 2*start + 3 >= N for N >= 2: %s (a start computed with an unsigned subtraction that can wrap, "
               "or below floor(N/2) - 1, leaves the last parent unsifted for some N)" % (okc, okl, start, oks), function=f.name, construct="build-pass")
